@@ -414,13 +414,17 @@ def rule_ag_json_writer(repo, col):
                 elif dotted(x.value) == 'self._format_version':
                     parts.append(default_ver or '?')
             formal = ''.join(parts)
-    col.check(bool(v) and formal is not None and set(v) <= {formal,
-                                                             default_ver},
-              rule, TABLE, 'Table.to_json', 'const:format', None,
-              "format string %r is what the validator accepts for %s"
-              % (v, default_ver),
-              'format written %r, validator accepts %r / %r'
-              % (v, formal, default_ver))
+    if default_ver is None or formal is None or '?' in formal:
+        col.unknown(rule, TABLE, 'Table.to_json', 'const:format', None,
+                    'default format version / accepted format string not '
+                    'resolved')
+    else:
+        col.check(bool(v) and set(v) <= {formal, default_ver},
+                  rule, TABLE, 'Table.to_json', 'const:format', None,
+                  "format string %r is what the validator accepts for %s"
+                  % (v, default_ver),
+                  'format written %r, validator accepts %r / %r'
+                  % (v, formal, default_ver))
     # date: isoformat on both alternatives, validator accepts both shapes
     occs = paths['string'][1].get('date', [])
     kinds = {d[1] for occ in occs for d in iter_dyn(occ)}
@@ -441,9 +445,9 @@ def rule_ag_json_writer(repo, col):
     # from_json parses the date with fromisoformat
     uses = any(isinstance(n, ast.Call) and isinstance(n.func, ast.Attribute)
                and n.func.attr == 'fromisoformat' for n in body_walk(fj))
-    col.check(uses, rule, TABLE, 'Table.from_json', 'date-inverse', fj,
-              'date read back with fromisoformat (inverse of isoformat)',
-              'date is not parsed with fromisoformat')
+    col.soft(uses, rule, TABLE, 'Table.from_json', 'date-inverse', fj,
+             'date read back with fromisoformat (inverse of isoformat)',
+             'fromisoformat call in from_json')
 
 
 # --------------------------------------------------------------------------
@@ -460,15 +464,33 @@ def tsv_paths(repo):
     return res
 
 
+def _variants(stream, limit=128):
+    """All concrete renderings of a stream with alternatives expanded."""
+    outs = ['']
+    for it in stream:
+        if it[0] == 'alt':
+            opts = []
+            for o in it[1]:
+                opts += _variants(o, limit)
+            outs = [a + b for a in outs for b in opts][:limit]
+        elif it[0] == 'elem':
+            outs = [a + b for a in outs
+                    for b in _variants(it[1], limit)][:limit]
+        else:
+            r = render((it,))
+            outs = [a + r for a in outs]
+    return outs
+
+
 def _elem_templates(ls, strip_nl=False):
     """Set of rendered element templates of a list stream."""
     out = set()
     for it in ls:
         if it[0] == 'elem':
-            t = render(it[1])
-            if strip_nl and t.endswith('\n'):
-                t = t[:-1]
-            out.add(t)
+            for t in _variants(it[1]):
+                if strip_nl and t.endswith('\n'):
+                    t = t[:-1]
+                out.add(t)
         elif it[0] == 'rep':
             out |= {'*' + t for t in _elem_templates(it[1], strip_nl)}
         elif it[0] == 'alt':
